@@ -41,8 +41,10 @@ import (
 	"sync"
 	"time"
 
+	"github.com/mitchellh/go-homedir"
 	dawn "github.com/pgavlin/dawn"
 	"github.com/pgavlin/dawn/diff"
+	"github.com/pgavlin/dawn/internal/project"
 	"github.com/pgavlin/dawn/label"
 	"go.starlark.net/starlark"
 )
@@ -71,7 +73,23 @@ type graph struct {
 	// those of `broken` that are local files with a syntax error instead (they fail in ExecFile, after the environment
 	// was set up; to the loader - and to the model - that is the same: executed once, nothing loaded, finished with an error)
 	syntax []int
+	// modules of the REQUIRED project example.com/dep (present in the module cache under $HOME): dep[i] = [d, l] means module d
+	// is dep//lib:m<l>.dawn - the same package and file name as the local helper l, other contents. To the loader - and
+	// to the model - it is simply another module: a module's identity is its full label, project included.
+	dep [][2]int
 }
+
+func (g *graph) mirrorOf(m int) (int, bool) {
+	for _, d := range g.dep {
+		if d[0] == m {
+			return d[1], true
+		}
+	}
+	return 0, false
+}
+
+const depProject = "example.com/dep"
+const depVersion = "v1.0.0"
 
 func (g *graph) isSyntax(m int) bool {
 	for _, b := range g.syntax {
@@ -86,11 +104,13 @@ func (g *graph) isSyntax(m int) bool {
 func (g *graph) modelString() string {
 	h := *g
 	h.syntax = nil
+	h.dep = nil
 	return h.String()
 }
 
 func (g *graph) clone() *graph {
-	h := &graph{roots: append([]int{}, g.roots...), broken: append([]int{}, g.broken...), syntax: append([]int{}, g.syntax...)}
+	h := &graph{roots: append([]int{}, g.roots...), broken: append([]int{}, g.broken...), syntax: append([]int{}, g.syntax...),
+		dep: append([][2]int{}, g.dep...)}
 	for _, l := range g.loads {
 		h.loads = append(h.loads, append([]int{}, l...))
 	}
@@ -123,6 +143,24 @@ func (g *graph) String() string {
 		ls = append(ls, strings.Join(xs, ","))
 	}
 	out := strings.Join(rs, ",") + "/" + strings.Join(ls, ";")
+	if len(g.dep) > 0 {
+		// roots/loads/broken/syntax/dep with `-` for the empty lists
+		lst := func(xs []int) string {
+			if len(xs) == 0 {
+				return "-"
+			}
+			var ss []string
+			for _, x := range xs {
+				ss = append(ss, strconv.Itoa(x))
+			}
+			return strings.Join(ss, ",")
+		}
+		var ds []string
+		for _, d := range g.dep {
+			ds = append(ds, fmt.Sprintf("%d:%d", d[0], d[1]))
+		}
+		return out + "/" + lst(g.broken) + "/" + lst(g.syntax) + "/" + strings.Join(ds, ",")
+	}
 	if len(g.broken) > 0 {
 		var bs []string
 		for _, b := range g.broken {
@@ -142,7 +180,7 @@ func (g *graph) String() string {
 
 func parseGraph(s string) (*graph, error) {
 	parts := strings.Split(s, "/")
-	if len(parts) < 2 || len(parts) > 4 {
+	if len(parts) < 2 || len(parts) > 5 {
 		return nil, fmt.Errorf("bad graph %q", s)
 	}
 	nums := func(s string) ([]int, error) {
@@ -175,9 +213,18 @@ func parseGraph(s string) (*graph, error) {
 		if g.broken, err = nums(parts[2]); err != nil {
 			return nil, err
 		}
-		if len(parts) == 4 {
+		if len(parts) >= 4 {
 			if g.syntax, err = nums(parts[3]); err != nil {
 				return nil, err
+			}
+		}
+		if len(parts) == 5 {
+			for _, dl := range strings.Split(parts[4], ",") {
+				var d, l int
+				if _, err := fmt.Sscanf(dl, "%d:%d", &d, &l); err != nil {
+					return nil, fmt.Errorf("bad dep entry %q", dl)
+				}
+				g.dep = append(g.dep, [2]int{d, l})
 			}
 		}
 		for _, b := range g.broken {
@@ -212,6 +259,9 @@ func (g *graph) file(m int) string {
 	if m < len(g.roots) {
 		return "BUILD.dawn"
 	}
+	if l, ok := g.mirrorOf(m); ok {
+		return fmt.Sprintf("m%d.dawn", l)
+	}
 	return fmt.Sprintf("m%d.dawn", m)
 }
 
@@ -219,6 +269,9 @@ func (g *graph) label(m int) string {
 	l := &label.Label{Kind: "module", Package: g.pkg(m), Name: g.file(m)}
 	if g.isBroken(m) && !g.isSyntax(m) {
 		l.Project = "example.com/x"
+	}
+	if _, ok := g.mirrorOf(m); ok {
+		l.Project = depProject
 	}
 	return l.String()
 }
@@ -258,8 +311,29 @@ func (g *graph) analyse() (reach []bool, cyclic bool) {
 	return
 }
 
+// where the required project lives: $HOME/.dawn/modules/cache/<path>@<version> (internal/mvs Resolver.FetchProject)
+func depCacheDir() string {
+	return filepath.Join(os.Getenv("HOME"), ".dawn", "modules", "cache", depProject+"@"+depVersion)
+}
+
 func (g *graph) write(root string) error {
-	if err := os.WriteFile(filepath.Join(root, ".dawnconfig"), nil, 0o644); err != nil {
+	os.Remove(filepath.Join(root, ".dawnconfig"))
+	os.Remove(filepath.Join(root, "dawn.toml"))
+	if len(g.dep) > 0 {
+		// the project requires example.com/dep, which is already in the module cache: nothing is dialled
+		cfg := &project.Config{Requirements: map[string]project.RequirementConfig{"dep": {Path: depProject, Version: depVersion}}}
+		if err := project.WriteConfigFile(filepath.Join(root, "dawn.toml"), cfg); err != nil {
+			return err
+		}
+		cd := depCacheDir()
+		os.RemoveAll(cd)
+		if err := os.MkdirAll(filepath.Join(cd, "lib"), 0o755); err != nil {
+			return err
+		}
+		if err := project.WriteConfigFile(filepath.Join(cd, "dawn.toml"), &project.Config{Name: "dep"}); err != nil {
+			return err
+		}
+	} else if err := os.WriteFile(filepath.Join(root, ".dawnconfig"), nil, 0o644); err != nil {
 		return err
 	}
 	for m := range g.loads {
@@ -272,12 +346,26 @@ func (g *graph) write(root string) error {
 		}
 		for i, d := range g.loads[m] {
 			ref := g.pkg(d) + ":" + g.file(d)
+			_, dIsDep := g.mirrorOf(d)
+			_, mIsDep := g.mirrorOf(m)
 			if g.isBroken(d) && !g.isSyntax(d) {
 				ref = "example.com/x" + ref
+			} else if dIsDep && !mIsDep {
+				ref = "dep" + ref // through the requirement's alias
+			} else if dIsDep && mIsDep {
+				ref = ":" + g.file(d) // inside the required project
 			} else if g.pkg(d) == g.pkg(m) && (m+i)%2 == 0 {
 				ref = ":" + g.file(d) // relative form
 			}
 			fmt.Fprintf(&b, "load(%q, a%d=\"x%d\")\nslow()\n", ref, i, d)
+		}
+		if _, isDep := g.mirrorOf(m); isDep {
+			// a module of the required project: same package and file name as a local helper, other globals, no targets
+			fmt.Fprintf(&b, "x%d = %d\n", m, m)
+			if err := os.WriteFile(filepath.Join(depCacheDir(), "lib", g.file(m)), []byte(b.String()), 0o644); err != nil {
+				return err
+			}
+			continue
 		}
 		fmt.Fprintf(&b, "x%d = %d\n@target(name=\"t%d\")\ndef t%d():\n    pass\nf%d = parse_flag(\"f%d\", default=\"d\")\n", m, m, m, m, m, m)
 		dir := filepath.Join(root, g.pkg(m)[2:])
@@ -397,6 +485,31 @@ func genGraph(r *rng, kind string) *graph {
 			g.loads[k] = []int{bad}
 		}
 		return g
+	case "required": // a module of a required project with the same package and file name as a local helper
+		n := k + 2 + r.below(2)
+		g := mk(k, n)
+		local, dep := k, n-1
+		g.dep = [][2]int{{dep, local}}
+		if n-k == 3 {
+			g.loads[k+1] = []int{dep} // a local helper loads the required project's module
+		}
+		for i := 0; i < k; i++ {
+			switch r.below(4) {
+			case 0:
+				g.loads[i] = []int{local, dep}
+			case 1:
+				g.loads[i] = []int{dep, local}
+			case 2:
+				g.loads[i] = []int{dep}
+			default:
+				g.loads[i] = []int{local}
+				if n-k == 3 {
+					g.loads[i] = []int{local, k + 1}
+				}
+			}
+		}
+		g.loads[0] = [][]int{{local, dep}, {dep, local}}[r.below(2)]
+		return g
 	case "dag":
 		n := k + 1 + r.below(5)
 		g := mk(k, n)
@@ -497,7 +610,7 @@ func seqString(gs []*graph) string {
 	return strings.Join(ss, " => ")
 }
 
-var kinds = []string{"chain", "diamond", "shared", "cycle", "self", "crossroot", "dag", "random", "shared", "cycle", "foreign"}
+var kinds = []string{"chain", "diamond", "shared", "cycle", "self", "crossroot", "dag", "random", "shared", "cycle", "foreign", "required"}
 
 // ---------------------------------------------------------------- events (the judge's own count of ModuleLoading)
 type events struct {
@@ -1137,8 +1250,10 @@ func judge(g *graph, res *lresult, mode string) {
 	for m := range g.loads {
 		n := res.evLoading[g.label(m)]
 		if reach[m] {
-			wantT = append(wantT, fmt.Sprintf("%s:t%d", g.pkg(m), m))
-			wantF = append(wantF, fmt.Sprintf("%s.f%d", g.pkg(m)[2:], m))
+			if _, isDep := g.mirrorOf(m); !isDep {
+				wantT = append(wantT, fmt.Sprintf("%s:t%d", g.pkg(m), m))
+				wantF = append(wantF, fmt.Sprintf("%s.f%d", g.pkg(m)[2:], m))
+			}
 			if n != 1 {
 				violation("not-loaded-once", g, res, mode, fmt.Sprintf("%s: %d ModuleLoading events", g.label(m), n))
 			}
@@ -1440,6 +1555,14 @@ func childMain(spec string) {
 		panic(err)
 	}
 	dawn.VerifHook = hook
+	// a private HOME: the module cache of required projects lives under it, pre-populated by the tree writer
+	home, err := os.MkdirTemp(tempBase(), "verif-loader-home")
+	if err != nil {
+		panic(err)
+	}
+	defer os.RemoveAll(home)
+	os.Setenv("HOME", home)
+	homedir.DisableCache = true
 	for i, j := range jobs {
 		fmt.Fprintf(out, "B\t%d\n", i)
 		out.Flush()
@@ -1642,6 +1765,11 @@ func main() {
 		nGraphs = 1500
 		perG = 40
 		freeG = 20
+	}
+	// //lib:m2.dawn and dep//lib:m2.dawn (a required project), loaded in both orders by two packages
+	for _, fixed := range []string{"0,1/2,3;3,2;-;-/-/-/3:2", "0,1,2/3,4;4;3;-;-/-/-/4:3"} {
+		jobs = append(jobs, job{Graph: fixed, Mode: "random", N: perG, Seed: r.next(), Ver: *ver, Trace: 2})
+		jobs = append(jobs, job{Graph: fixed, Mode: "free", N: freeG, Seed: r.next(), Ver: *ver, SlowMax: 200, Trace: 2, FreeTimeoutMs: freeMs})
 	}
 	for i := 0; i < nGraphs; i++ {
 		g := genGraph(r, kinds[i%len(kinds)])
